@@ -85,7 +85,7 @@ MANIFEST = dict(
 )
 
 IMPORTS = ['Coq.NArith.NArith', 'Coq.ZArith.ZArith', 'Coq.Lists.List', 'Coq.Bool.Bool', 'SV.Fmt.DmxCodes', 'SV.Fmt.DmxBin',
-           'SV.Fmt.DmxMembers', 'SV.Fmt.DmxKv1', 'SV.Fmt.DmxScalar', 'SV.Text.Str', 'SV.Text.Tokenizer', 'SV.Text.TokGen', 'SV.Fmt.DmxKv2',
+           'SV.Fmt.DmxMembers', 'SV.Fmt.DmxKv1', 'SV.Fmt.DmxKv1Sel', 'SV.Fmt.DmxScalar', 'SV.Text.Str', 'SV.Text.Tokenizer', 'SV.Text.TokGen', 'SV.Fmt.DmxKv2',
            'SV.Num.Dec6', 'SV.Fmt.DmxValText', 'SV.Fmt.DmxHeader', 'SV.Gen.DmxCodes_gen', 'SV.Fmt.DmxKv2Inst']
 PRE_BIN = '''Import ListNotations. Open Scope N_scope.
 Definition idenc (_ : enc) (s : str) : bytes := s.
@@ -234,7 +234,7 @@ CORPUS: list[tuple[str, dict, list[dict]]] = [
 def corr_binary(ck: Ck) -> None:
     """Model export vs export_binary (byte-exact) and model parse of the implementation's bytes vs parse_bin."""
     from srctools import dmx
-    n = ck.budget(180, 3000)
+    n = ck.budget(120, 3000)
     cases = []
     corpus = [(s, m) for _, s, ms in CORPUS for m in ms if m['fmt'] == 'binary']
     for i in range(n):
@@ -1099,7 +1099,7 @@ Fixpoint el_eqb (a b : el) : bool := match a, b with El t ms, El t' ms' => kstr_
      | _, _ => false end) ms ms' end.
 Definition okv_eqb (a b : option kv) := match a, b with Some x, Some y => kv_eqb x y | None, None => true | _, _ => false end.
 Definition chk1 (c : kv * el * option kv) : N := let '(t, e, back) := c in
-  if el_eqb (from_kv1 lower gen_kv1 t) e then (if okv_eqb (to_kv1 lower gen_kv1 e) back then 0 else 2) else 1.
+  if el_eqb (from_kv1_sel lower gen_kv1 gen_kv1_reserved_sel gen_kv1_dup_sel t) e then (if okv_eqb (to_kv1 lower gen_kv1 e) back then 0 else 2) else 1.
 Fixpoint bad_idx {A} (f : A -> N) (n : N) (l : list A) : list N := match l with [] => [] | x :: r => (if f x =? 0 then [] else [n * 10 + f x]) ++ bad_idx f (n + 1) r end.
 '''
 
@@ -1113,7 +1113,7 @@ def corr_kv1(ck: Ck) -> None:
     ASCII lower-casing, which the Coq side uses for [fold])."""
     import warnings
     from srctools import dmx
-    n = ck.budget(300, 3000)
+    n = ck.budget(200, 3000)
     cases = []
     with warnings.catch_warnings():
         warnings.simplefilter('ignore')
@@ -1358,6 +1358,8 @@ OBLIGATIONS = {
     'kv1_element_types_distinct': 'kv1_types_distinct gen_kv1',
     'kv1_keys_written_are_keys_read': 'kv1_keys_agree gen_kv1',
     'kv1_reserved_names_cover_name_and_subkeys': 'kv1_reserved_covers gen_kv1',
+    'kv1_reserved_test_reads_the_casefolded_name': 'sel_is_folded gen_kv1_reserved_sel',
+    'kv1_duplicate_test_reads_the_casefolded_name': 'sel_is_folded gen_kv1_dup_sel',
 }
 # which concrete violation keys explain which failed obligation (substring of the key)
 EXPLAIN = {
@@ -1390,6 +1392,10 @@ EXPLAIN = {
     'instance:attr_record_loop_skips_the_name_key': ['binary', ''],
     'instance:collecting_loop_skips_what_the_record_loop_skips': ['binary', ''],
     'instance:element_name_reads_the_name_member': ['', 'element-without-name-member'],
+    'instance:kv1_reserved_test_reads_the_casefolded_name': ['kv1-bridge', 'reserved-leaf-name'],
+    'instance:kv1_duplicate_test_reads_the_casefolded_name': ['kv1-bridge', 'duplicate-leaf-names'],
+    'instance:kv1_reserved_names_cover_name_and_subkeys': ['kv1-bridge', 'reserved-leaf-name'],
+    'correspondence:kv1-bridge': ['kv1-bridge', ''],
     'correspondence:scalar-codecs': ['binary', ''],
     'correspondence:binary': ['binary', ''],
 }
@@ -1447,20 +1453,31 @@ def run(ck: Ck) -> None:
     ok_t = ck.translate('EscTables_gen', c02_tables.translate) and ck.translate('DmxCodes_gen', c14_dmx.translate)
     side = ck.extra.get('translated', {}).get('DmxCodes_gen', {})
     built = ok_t and ck.build(['Gen/DmxCodes_gen.vo', 'Props/C14.vo'])
+    import os
+    import time as _time
+    t0 = [_time.time()]
+    stage_s: dict = {}
+
+    def stage(name: str, fn, *a) -> None:
+        fn(*a)
+        t1 = _time.time()
+        stage_s[name] = round(t1 - t0[0], 1)
+        t0[0] = t1
     if built:
-        ck.theorems('Props/C14.v')
-        ck.instance_obligations(IMPORTS, OBLIGATIONS)
-        runtime_agreement(ck, side)
-        angle_norm_identity(ck)
-        corr_scalar(ck)
-        corr_binary(ck)
-        corr_kv2(ck)
-        corr_keyword_predicate(ck)
-        corr_kv2_nested(ck)
-        corr_value_text(ck)
-        corr_kv1(ck)
-    search_graphs(ck)
-    search_kv1(ck)
+        stage('print_assumptions', ck.theorems, 'Props/C14.v')
+        stage('instance_obligations', ck.instance_obligations, IMPORTS, OBLIGATIONS)
+        stage('runtime', lambda: (runtime_agreement(ck, side), angle_norm_identity(ck)))
+        stage('corr_scalar', corr_scalar, ck)
+        stage('corr_binary', corr_binary, ck)
+        stage('corr_kv2', corr_kv2, ck)
+        stage('corr_keyword_predicate', corr_keyword_predicate, ck)
+        stage('corr_kv2_nested', corr_kv2_nested, ck)
+        stage('corr_value_text', corr_value_text, ck)
+        stage('corr_kv1', corr_kv1, ck)
+    stage('search_graphs', search_graphs, ck)
+    stage('search_kv1', search_kv1, ck)
+    if os.environ.get('C14_TIMING'):
+        print('stage seconds:', stage_s)
     keys = [v['key'] for v in ck.violations]
     for ob, (pfx, part) in EXPLAIN.items():
         if any(k.startswith(pfx) and part in k for k in keys):
